@@ -319,9 +319,13 @@ func run(c *ev.Ctx) {
 			}
 		}
 	}
+	scalarFamily(c)
 }
 
 func replay(raw stdjson.RawMessage) (bool, string) {
+	if v, d, ok := replayScalar(raw); ok {
+		return v, d
+	}
 	var cs caseT
 	if err := stdjson.Unmarshal(raw, &cs); err != nil {
 		return false, err.Error()
